@@ -460,6 +460,17 @@ _reg("C13", plan_accept("cross", "Trace_Accept_C13.cfg", "C13 other family's CON
      "TLA+ spec + exhaustive name/level table + trace validation")
 
 
+def plan_extra(c):
+    """Beyond the listed properties (not in MANIFEST.json): the rest of the public surface against Api.tla."""
+    m, _ = tv(c, "api", "Trace_Api", "Trace.cfg", "EXTRA public surface (constructors, tags, conversions, Display)", shard=0)
+    c.traces += m
+    return m
+
+
+PLANS["EXTRA"] = {"plan": plan_extra, "level": "model_checking", "claim": "not claimed", "technique": "trace validation",
+                  "note": "beyond the list", "rule": "one case = one API call", "trusted": SPEC_TRUST}
+
+
 def replay(path):
     """Re-validate the recorded events of a violation against their trace module."""
     j = json.load(open(path))
